@@ -15,15 +15,27 @@
 #undef private
 
 static unsigned long nNew, nDel;
-// fresh allocations are poisoned: a value or link read before it is written cannot look plausible
+// fresh allocations are poisoned (0xAA): a value or link read before it is written cannot look plausible;
+// released blocks are overwritten (0xDD) before they go back to the allocator, so a read through a stale pointer
+// yields a visibly wrong element (-572662307) also in the build without sanitizers.  The size lives in a 16 byte
+// header in front of the block.
 void* operator new[](usize size)
 {
   ++nNew;
-  void* p = malloc(size ? size : 1);
-  memset(p, 0xAA, size);
-  return p;
+  unsigned char* base = (unsigned char*)malloc(size + 16);
+  *(usize*)base = size;
+  memset(base + sizeof(usize), 0xEE, 16 - sizeof(usize));
+  memset(base + 16, 0xAA, size);
+  return base + 16;
 }
-void operator delete[](void* p) { if(p) ++nDel; free(p); }
+void operator delete[](void* p)
+{
+  if(!p) return;
+  ++nDel;
+  unsigned char* base = (unsigned char*)p - 16;
+  memset(p, 0xDD, *(usize*)base);
+  free(base);
+}
 void* operator new(usize size) { return operator new[](size); }
 void operator delete(void* p) { operator delete[](p); }
 
@@ -464,6 +476,30 @@ int main()
       if(x.size() == 0) bad = true;
       else { if(&x.back() != &((const A&)x).back() || &x.back() != (int*)x + x.size() - 1) printf("back-differs "); setRet(x.back()); show = 5; }
     }
+    // ---- the container itself / a reference into it as argument ----
+    else if(hxIs(l, "lappendself", 1)) { a.append(a); show = 1; }
+    else if(hxIs(l, "lprependself", 1)) { a.prepend(a); show = 1; }
+    else if(hxIs(l, "linsertself", 2))
+    {
+      size_t pos = hxNum(l, 2);
+      if(pos > a.size()) bad = true;
+      else { L::Iterator r = a.insert(iterAt(a, pos), a); setRet(posOf(a, r)); show = 1; }
+    }
+    else if(hxIs(l, "lassignself", 1)) { L& r = (a = a); if(&r != &a) printf("assign-returns-other "); show = 1; }
+    else if(hxIs(l, "aappendself", 1)) { x.append(x); show = 5; }
+    else if(hxIs(l, "aappendref", 2))
+    {
+      size_t i = hxNum(l, 2);
+      if(i >= x.size()) bad = true;
+      else { int& r = x.append(x[i]); setRet(&r - (int*)x); show = 5; }
+    }
+    else if(hxIs(l, "aresizeref", 3))
+    {
+      size_t i = hxNum(l, 3);
+      if(i >= x.size()) bad = true;
+      else { x.resize(hxNum(l, 2), x[i]); show = 5; }
+    }
+    else if(hxIs(l, "aassignself", 1)) { A& r = (x = x); if(&r != &x) printf("assign-returns-other "); show = 5; }
     else if(hxIs(l, "aeq", 2))
     {
       unsigned long ww = hxNum(l, 2);
